@@ -41,6 +41,11 @@ def make_wn(c, rng):
     if c.index % 20 == 19:
         wn, desc = common.perturbed_example(rng, c.tier)
         return wn, desc, ('example', desc['file'], desc['hyd'], desc['pattern_start'], desc['mode'])
+    if c.index % 20 == 18:
+        wn, desc = common.testnet(rng, light=False)
+        if wn is not None:
+            c.count('testnet_cases')
+            return wn, desc, ('testnet', desc['file'], desc['mode'], desc['mult'])
     spec = gnet.gen_spec(rng, p_leak=0.12 if rng.random() < 0.5 else 0.0,
                          n_junc=(3, 14) if c.tier == 'quick' else (3, 40))
     if c.index % 3 == 0:
